@@ -29,6 +29,9 @@ type Env struct {
 	// Types, when non-nil, turns on type ascriptions on lets: the Lean type of a Lean variable name (default Int).
 	// With Types == nil lets are emitted without ascription (the behaviour gen jobs written before typed lets rely on).
 	Types map[string]string
+	// SkipCalls lists call heads (exprKey of the called function, e.g. "r.cluster.Stats().UpstreamRequestRetry.Inc") whose
+	// expression statements have no effect on the modelled state and are dropped. Any other expression statement is an error.
+	SkipCalls map[string]bool
 }
 
 func (env *Env) typeOf(v string) string {
@@ -273,6 +276,15 @@ func (env *Env) block(stmts []ast.Stmt, ind string) (string, error) {
 		return "if " + c + " then\n" + ind + "  " + t + "\n" + ind + "else\n" + ind + "  " + e, nil
 	case *ast.BlockStmt:
 		return env.block(append(append([]ast.Stmt{}, x.List...), rest...), ind)
+	case *ast.ExprStmt:
+		// added for C17 (retry state): a call statement explicitly listed as effect-free for the model
+		if c, ok := x.X.(*ast.CallExpr); ok && env.SkipCalls[exprKey(c.Fun)] {
+			return env.block(rest, ind)
+		}
+		return "", fmt.Errorf("unsupported expression statement %s", exprKey(x.X))
+	case *ast.RangeStmt:
+		// added for C17: `for _, v := range xs { if cond { return r } }` (see translate_range.go)
+		return env.rangeAny(x, rest, ind)
 	}
 	return "", fmt.Errorf("unsupported statement %T", s)
 }
